@@ -8,7 +8,8 @@
    breaks `all_functions_ok`.  The table is TIGHT (`exclusions_tight`): an id that no longer fails must be
    removed, so a repaired site (triangle_Bfield `ind > 1e-12*l`, f10bc6f; mask_inside_enclosing_box relative
    eps, ac0d0ea; the orientation seed test and the self-intersection test, which now run on a
-   unit-size copy of the mesh, e19e649 / c030c9e) is proved from then on and re-introducing an absolute tolerance there breaks the proof. *)
+   unit-size copy of the mesh, e19e649 / c030c9e; the inside test of mask_inside_trimesh,
+   which now runs on a unit-size copy of points and faces, 246d13b) is proved from then on and re-introducing an absolute tolerance there breaks the proof. *)
 From Coq Require Import Reals ZArith String List Bool Lia Lra.
 From MV Require Import Lib.Dim Gen.GenTol.
 Import ListNotations.
@@ -46,19 +47,6 @@ Definition failing : list string := flat_map failing_fn functions.
    computed behind such a decision, or the un-modelled cylinder-segment core; each one points to a
    finding of known_findings/C12.json or to the `not modelled` list of harness/props/C12.meta.json *)
 Definition exclusions : list string := [
-  (* mask_inside_trimesh: ray start = min(vertices) - (12.0012345, 5.9923456, 6.9932109) *)
-  "trimesh_inside>mask_inside_trimesh>lines_end_in_trimesh(test_lines, faces)>arg:lines.0";
-  "trimesh_inside>mask_inside_trimesh>lines_end_in_trimesh(test_lines, faces)>arg:lines.1";
-  "trimesh_inside>mask_inside_trimesh>lines_end_in_trimesh(test_lines, faces)>arg:lines.2";
-  (* lines_end_in_trimesh: |l1 - ref|^2 < 1e-16 (selects the reference point used by the projections
-     and therefore everything computed from them), signed volumes < 1e-12 *)
-  "trimesh_lines_end>lines_end_in_trimesh>v_norm2(l1 - ref_pts) < eps";
-  "trimesh_lines_end>lines_end_in_trimesh>np.abs(proj1) < eps";
-  "trimesh_lines_end>lines_end_in_trimesh>np.sign(proj0) != np.sign(proj1)";
-  "trimesh_lines_end>lines_end_in_trimesh>np.sum(result_cross, axis=1) % 2 != 0";
-  "trimesh_lines_end>lines_end_in_trimesh>np.abs(area1) < eps";
-  "trimesh_lines_end>lines_end_in_trimesh>np.abs(area2) < eps";
-  "trimesh_lines_end>lines_end_in_trimesh>np.abs(area3) < eps";
   (* cylinder segment: close() = isclose(rtol=1e-12, atol=1e-12) on lengths, +-1e-14 margins on lengths *)
   "cylinder_segment>BHJM_cylinder_segment>r1 - 1e-14 < r";
   "cylinder_segment>BHJM_cylinder_segment>r < r2 + 1e-14";
